@@ -26,8 +26,15 @@ pub fn snapshot(xs: &mut Xstate) -> String {
     let vars: Vec<String> = xs.var_list().iter().map(|(n, c)| format!("{}={}", n, canon::cell(c))).collect();
     // captured output as the public `read_stdout` reports it, taken from a throw-away copy (reading drains the buffer)
     let cap = { let mut probe = xs.clone(); probe.read_stdout().map(|s| canon::hex(s.as_bytes())).unwrap_or("-".into()) };
-    format!("{} | cap={} host={} dict={} code={} dmap={} flows={} nested={} inputs={} mode={} marks={:?} | vars={}",
-        vmcanon::full_dump(xs), cap, host, d.dict_len, d.code_len, d.debug_map_len, d.flows, d.nested, d.pending_inputs, d.mode, d.marks, vars.join(","))
+    // the configured limits are not part of the dump: they are observed through what they refuse, on a throw-away copy
+    let limits = {
+        let mut probe = xs.clone();
+        let a = crate::guarded(|| probe.eval("1 2 3 4 5 6 7 8 9 10 11 12 13 14")).map(|r| r.map_err(|e| canon::err(&e)));
+        let b = crate::guarded(|| probe.eval("0 var lp1 0 var lp2 0 var lp3")).map(|r| r.map_err(|e| canon::err(&e)));
+        format!("{:?}/{:?}", a, b)
+    };
+    format!("{} | limits={} cap={} host={} dict={} code={} dmap={} flows={} nested={} inputs={} mode={} marks={:?} | vars={}",
+        vmcanon::full_dump(xs), limits, cap, host, d.dict_len, d.code_len, d.debug_map_len, d.flows, d.nested, d.pending_inputs, d.mode, d.marks, vars.join(","))
 }
 
 const SHARED_SETUP: &[&str] = &[
@@ -122,9 +129,88 @@ struct Copy_ {
     xs: Xstate,
     d2: bool,
     used_d2: bool,
+    /// limits other than the ones every copy starts with (the correspondence request assumes those)
+    custom_limits: bool,
+}
+
+/// The REPL's own snapshots (`/snapshot`, `/rollback`, trial mode — src/repl.rs, private to the binary): sessions of
+/// lines are piped into the real `xeh` binary (`VERIF_XEH_BIN`, built by the orchestrator from the working tree) and
+/// into a mirror of `ReplState` that keeps a stack of clones; what the binary prints must be what the mirror predicts.
+/// A snapshot that is rolled back to is the interpreter as it was when the snapshot was taken, every time.
+fn repl_snapshots(ctx: &mut Ctx) {
+    let bin = match std::env::var("VERIF_XEH_BIN") { Ok(b) if !b.is_empty() => b, _ => { ctx.tag("repl-binary:not-built(skipped)"); return; } };
+    let dir = format!("{}-repl", ctx.scratch);
+    std::fs::create_dir_all(&dir).unwrap();
+    const LINES: &[&str] = &["1", "2 3", "drop", "10 var a a", "a 1 + ! a a", ": sq dup * ; 4 sq", "\"x\" println", "[ 1 2 ]", "depth", "oops", "1 0 /", "|ff| open-bitstr u8"];
+    let sessions = if ctx.thorough { 200 } else { 30 };
+    for _ in 0..sessions {
+        let mut lines: Vec<String> = Vec::new();
+        if ctx.rng.chance(70) { lines.push("/repl".into()); }
+        for _ in 0..(3 + ctx.rng.below(10)) {
+            lines.push(match ctx.rng.below(10) {
+                0 | 1 => "/snapshot".to_string(),
+                2 | 3 | 4 => "/rollback".to_string(),
+                5 if ctx.rng.chance(30) => "/trial".to_string(),
+                5 => "/repl".to_string(),
+                _ => (*ctx.rng.pick(LINES)).to_string(),
+            });
+        }
+        lines.push("depth".into());
+        ctx.progress(&format!("xeh < {:?}", lines));
+        // the binary
+        let got = (|| -> Option<(String, String)> {
+            use std::io::Write;
+            let mut child = std::process::Command::new(&bin).current_dir(&dir).stdin(std::process::Stdio::piped()).stdout(std::process::Stdio::piped()).stderr(std::process::Stdio::piped()).spawn().ok()?;
+            { let mut si = child.stdin.take()?; let _ = si.write_all((lines.join("\n") + "\n").as_bytes()); }
+            let out = child.wait_with_output().ok()?;
+            Some((String::from_utf8_lossy(&out.stdout).to_string(), String::from_utf8_lossy(&out.stderr).to_string()))
+        })();
+        // the mirror of ReplState
+        let mut xs = Xstate::boot().unwrap();
+        xeh::d2_plugin::load(&mut xs).unwrap();
+        xs.intercept_stdout(true);
+        let mut snaps: Vec<Xstate> = Vec::new();
+        let mut trial;
+        let banner = "# Trial and error mode!\n# Everyting is evaluating on-fly, hit Enter to freeze the changes.\n# Switch between modes using /repl and /trial commands.\n";
+        let mut out = String::from(banner);
+        let mut err = String::new();
+        trial = true;
+        snaps.push(xs.clone());
+        for l in &lines {
+            match l.trim() {
+                "/trial" => { if !trial { out.push_str(banner); trial = true; snaps.push(xs.clone()); } }
+                "/repl" => { if trial { out.push_str("# Read-Eval-Print-Loop mode!\n# Switch between modes using /repl and /trial commands.\n"); trial = false; } }
+                "/snapshot" => { out.push_str("Taking snapshot...\n"); snaps.push(xs.clone()); out.push_str("OK\n"); }
+                "/rollback" => { if let Some(mut old) = snaps.pop() { std::mem::swap(&mut xs, &mut old); out.push_str("OK\n"); } }
+                _ => {
+                    let res = match xs.compile(l) { Ok(()) => { let r = xs.run(); if r.is_err() { xs.abort_run(); } r } Err(e) => Err(e) };
+                    // (what the line printed is taken out of the mirror's capture buffer before the copy is made: the
+                    // binary prints straight to stdout, nothing of it is part of the interpreter)
+                    out.push_str(&xs.read_stdout().unwrap_or_default());
+                    if trial { let tmp = xs.clone(); snaps.pop(); snaps.push(tmp); }
+                    let n = xs.data_depth();
+                    for i in 0..n {
+                        if i > 15 { out.push_str("...\n"); break; }
+                        out.push_str(&xs.format_cell(xs.get_data(i).unwrap()).unwrap());
+                        out.push('\n');
+                    }
+                    if let Err(e) = &res { err.push_str(&xs.pretty_error().unwrap_or_else(|| format!("{}", e))); err.push('\n'); }
+                }
+            }
+        }
+        err.push_str("CTRL-D\n");
+        let shown = format!("C03 repl-binary xeh with the lines {:?}", lines);
+        match got {
+            None => ctx.oracle_fail(shown, "the binary runs".into(), "could not be started / did not finish".into()),
+            Some((o, e)) => ctx.check(o == out && e == err, || shown.clone(), || format!("stdout {:?} stderr {:?}", out, err), || format!("stdout {:?} stderr {:?}", o, e)),
+        }
+        ctx.tag("repl-binary:snapshot-session");
+    }
+    let _ = std::fs::remove_dir_all(&dir);
 }
 
 pub fn run(ctx: &mut Ctx) {
+    repl_snapshots(ctx);
     let cfg = GenCfg { endless: false, malformed_percent: 15, max_depth: 3, ..GenCfg::default() };
     let sweep0 = sweep();
     let sweep1 = sweep();
@@ -145,17 +231,17 @@ fn run_histories(ctx: &mut Ctx, cfg: &GenCfg) {
         base.set_insn_limit(Some(LIMIT)).unwrap();
         for s in SHARED_SETUP { let _ = base.eval(s); }
         if with_d2 { let _ = base.eval("4 3 d2-resize"); }
-        let mut pool: Vec<Copy_> = vec![Copy_ { xs: base, d2: with_d2, used_d2: false }];
+        let mut pool: Vec<Copy_> = vec![Copy_ { xs: base, d2: with_d2, used_d2: false, custom_limits: false }];
         let nops = ctx.rng.below(if ctx.thorough { 20 } else { 12 }) + 2;
         let mut history: Vec<String> = Vec::new();
         for _ in 0..nops {
             let i = ctx.rng.below(pool.len());
             let before: Vec<String> = pool.iter_mut().map(|c| snapshot(&mut c.xs)).collect();
-            let kind = ctx.rng.below(10);
+            let kind = ctx.rng.below(11);
             let mut touched_d2 = false;
             match kind {
                 0 | 1 => { // clone (also clone of clone)
-                    let c = Copy_ { xs: pool[i].xs.clone(), d2: pool[i].d2, used_d2: pool[i].used_d2 };
+                    let c = Copy_ { xs: pool[i].xs.clone(), d2: pool[i].d2, used_d2: pool[i].used_d2, custom_limits: pool[i].custom_limits };
                     pool.push(c);
                     history.push(format!("clone {}", i));
                     ctx.tag("op:clone");
@@ -166,6 +252,18 @@ fn run_histories(ctx: &mut Ctx, cfg: &GenCfg) {
                     ctx.check(a == b, || format!("C03 {}", history.join("; ")), || a.clone(), || b.clone());
                 }
                 2 => { if pool.len() > 1 { pool.remove(i); history.push(format!("drop {}", i)); ctx.tag("op:drop"); continue; } }
+                10 => { // the host configures limits on one copy: they bind that copy alone
+                    let xs = &mut pool[i].xs;
+                    let what = match ctx.rng.below(4) {
+                        0 => { let n = xs.verif_dump().insn_meter + ctx.rng.below(40); let _ = xs.set_insn_limit(Some(n)); format!("insn {}", n) }
+                        1 => { let n = ctx.rng.below(8); let _ = xs.set_stack_limit(Some(n)); format!("stack {}", n) }
+                        2 => { let n = xs.verif_dump().heap.len() + ctx.rng.below(3); let _ = xs.set_heap_limit(Some(n)); format!("heap {}", n) }
+                        _ => { let _ = xs.set_insn_limit(Some(LIMIT)); let _ = xs.set_stack_limit(None); let _ = xs.set_heap_limit(None); "back to the defaults".to_string() }
+                    };
+                    pool[i].custom_limits = true;
+                    history.push(format!("limits of {}: {}", i, what));
+                    ctx.tag("op:set-limits");
+                }
                 3 => { // step / reverse-step a compiled program on one copy
                     let (src, _) = gen_program(&mut ctx.rng, &cfg);
                     let xs = &mut pool[i].xs;
@@ -186,7 +284,7 @@ fn run_histories(ctx: &mut Ctx, cfg: &GenCfg) {
                     } else if ctx.rng.chance(8) { ctx.tag("op:eval-file"); file_source(ctx) }
                     else if ctx.rng.chance(60) { adversarial(&mut ctx.rng) } else { gen_program(&mut ctx.rng, &cfg).0 };
                     // correspondence: the model evaluates the same source on the machine as it is now
-                    if !pool[i].d2 {
+                    if !pool[i].d2 && !pool[i].custom_limits {
                         if let Some(t) = lex_all(&src) {
                             let xs = &mut pool[i].xs;
                             let d = xs.verif_dump();
@@ -219,7 +317,7 @@ fn run_histories(ctx: &mut Ctx, cfg: &GenCfg) {
             let mut k = 0;
             for (j, b) in before.iter().enumerate() {
                 if j >= pool.len() { break; }
-                if j == i && kind > 2 || (kind == 3 && j == i) { k += 1; continue; }
+                if j == i && kind > 2 || (kind == 3 && j == i) || (kind == 10 && j == i) { k += 1; continue; }
                 if j == i { continue; }
                 let now = snapshot(&mut pool[j].xs);
                 let marker = if touched_d2 || pool.iter().any(|c| c.used_d2) { "[anyrc-shared] " } else { "" };
@@ -281,7 +379,14 @@ fn run_histories(ctx: &mut Ctx, cfg: &GenCfg) {
             o.set_recording_enabled(true);
             let (prog, _) = gen_program(&mut ctx.rng, &cfg);
             if let Some(Ok(())) = crate::guarded(|| o.compile(&prog)) {
-                for _ in 0..(ctx.rng.below(25) + 3) { if crate::guarded(|| o.next()).map(|r| r.is_err()).unwrap_or(true) { break; } }
+                // the states on the way forward, recorded before any copy exists: both copies have to come back to THEM
+                // (two copies that go wrong in the same way agree with each other)
+                let core = |x: &mut Xstate| vmcanon::core_dump(&x.verif_dump());
+                let mut trail: Vec<String> = vec![core(&mut o)];
+                for _ in 0..(ctx.rng.below(25) + 3) {
+                    if !o.is_running() || crate::guarded(|| o.next()).map(|r| r.is_err()).unwrap_or(true) { break; }
+                    trail.push(core(&mut o));
+                }
                 let mut c = o.clone();
                 let mut ok = true;
                 let mut detail = String::new();
@@ -292,6 +397,7 @@ fn run_histories(ctx: &mut Ctx, cfg: &GenCfg) {
                     let (r1, r2) = (crate::guarded(|| o.next()).map(|r| r.is_ok()), crate::guarded(|| c.next()).map(|r| r.is_ok()));
                     let (d1, d2) = (snapshot(&mut o), snapshot(&mut c));
                     if r1 != r2 || d1 != d2 { ok = false; detail = format!("after {} more forward steps: origin {:?} {} / snapshot {:?} {}", k + 1, r1, d1, r2, d2); break; }
+                    if r1 == Some(true) && o.is_running() { trail.push(core(&mut o)); } else { trail.clear(); break; }
                 }
                 let back = ctx.rng.below(12) + 1 + fwd;
                 for k in 0..back {
@@ -299,6 +405,11 @@ fn run_histories(ctx: &mut Ctx, cfg: &GenCfg) {
                     let (r1, r2) = (crate::guarded(|| o.rnext()).map(|r| r.is_ok()), crate::guarded(|| c.rnext()).map(|r| r.is_ok()));
                     let (d1, d2) = (snapshot(&mut o), snapshot(&mut c));
                     if r1 != r2 || d1 != d2 { ok = false; detail = format!("after {} reverse steps: origin {:?} {} / snapshot {:?} {}", k + 1, r1, d1, r2, d2); break; }
+                    if trail.len() >= k + 2 {
+                        let want = &trail[trail.len() - 2 - k];
+                        let got = core(&mut c);
+                        if &got != want { ok = false; detail = format!("after {} reverse steps both copies are at {} but {} steps earlier the machine was at {}", k + 1, got, k + 1, want); break; }
+                    }
                 }
                 ctx.check(ok, || format!("C03 reverse-stepping a snapshot of `{}`", prog), || "origin and snapshot step back identically".into(), || detail.clone());
                 ctx.tag("recording-snapshot-check");
